@@ -8,6 +8,7 @@ import (
 	"fmt"
 	"io"
 	"io/ioutil"
+	"net"
 	"strings"
 	"time"
 
@@ -50,7 +51,11 @@ func (t *WebsocketTransport) Connect() (string, error) {
 	})
 
 	if err != nil {
-		return "", NewConnError(err, true)
+		// A server that cannot be reached now (refused, timed out, unreachable) may be back later: like a
+		// failed TCP dial, that is no reason to stop trying. A server that answers and refuses the
+		// upgrade will not change its mind.
+		var netErr net.Error
+		return "", NewConnError(err, !errors.As(err, &netErr))
 	}
 	if response.Header.Get("Sec-WebSocket-Protocol") != "xmpp" {
 		t.cleanup(websocket.StatusBadGateway)
